@@ -271,6 +271,69 @@ pub fn run(a: &Args) {
         std::mem::forget(mem);
     }
 
+    // (1e) the reloader is shut down before the source is dropped: a source whose destructor waits
+    // for its event channel to be disconnected (a polling source joining its worker, which stops
+    // when a send fails) does not block the drop of its cache
+    {
+        use assets_manager::source::{DirEntry, FileContent, Source};
+        use std::sync::atomic::{AtomicU64, Ordering};
+        use std::sync::Arc;
+        struct Waits {
+            inner: Mem,
+            primary: bool,
+            waited_ms: Arc<AtomicU64>,
+        }
+        impl Source for Waits {
+            fn read(&self, id: &str, ext: &str) -> std::io::Result<FileContent> {
+                self.inner.read(id, ext)
+            }
+            fn read_dir(&self, id: &str, f: &mut dyn FnMut(DirEntry)) -> std::io::Result<()> {
+                self.inner.read_dir(id, f)
+            }
+            fn exists(&self, e: DirEntry) -> bool {
+                self.inner.exists(e)
+            }
+            fn make_source(&self) -> Option<Box<dyn Source + Send>> {
+                Some(Box::new(Waits { inner: self.inner.clone(), primary: false, waited_ms: self.waited_ms.clone() }))
+            }
+            fn configure_hot_reloading(&self, events: assets_manager::hot_reloading::EventSender) -> Result<(), assets_manager::BoxedError> {
+                self.inner.configure_hot_reloading(events)
+            }
+        }
+        impl Drop for Waits {
+            fn drop(&mut self) {
+                if !self.primary {
+                    return;
+                }
+                // the worker of a polling source: keeps sending until it is told nobody listens
+                let t0 = Instant::now();
+                while t0.elapsed() < Duration::from_millis(2500) {
+                    if !self.inner.send(vec![OwnedDirEntry::File("a".into(), "x".into())]) {
+                        break;
+                    }
+                    std::thread::sleep(Duration::from_millis(5));
+                }
+                self.waited_ms.store(t0.elapsed().as_millis() as u64, Ordering::SeqCst);
+            }
+        }
+        let waited = Arc::new(AtomicU64::new(0));
+        let mem = Mem::new(true);
+        mem.write("a", "x", b"1");
+        let cache = AssetCache::with_source(Waits { inner: mem.clone(), primary: true, waited_ms: waited.clone() });
+        cache.load::<TInt>("a").unwrap();
+        cache.hot_reload();
+        let t0 = Instant::now();
+        drop(cache);
+        let took = t0.elapsed().as_millis() as u64;
+        let w = waited.load(Ordering::SeqCst);
+        evals += 1;
+        samples.push(format!("{{\"kind\": \"source whose destructor waits for the disconnection\", \"drop_took_ms\": {took}, \"source_waited_ms\": {w}}}"));
+        if w >= 2500 {
+            violations.push(("reloader-alive-after-drop".into(), format!("dropping a cache whose source's destructor waits for its event channel to be disconnected took {took} ms: the source waited {w} ms (its time-out) and was never told, i.e. the reloader was still there while the source was being dropped")));
+        }
+        std::mem::forget(mem);
+    }
+
     // (1c) FileSystem caches: after the drop the notify watcher goes away too (it lets go when a
     // send fails), also when files keep changing under the root
     {
